@@ -1318,9 +1318,10 @@ class Irc(IrcCommandDispatcher, log.Firewalled):
                     self.state.addMsg(self, msg)
             log.debug('Outgoing message (%s): %s', self.network, str(msg).rstrip('\r\n'))
             return msg
-        elif self.zombie:
+        elif self.zombie and not self.queue and not self.fastqueue:
             # We kill the driver here so it doesn't continue to try to
-            # take messages from us.
+            # take messages from us.  (Only once everything was sent: the
+            # throttle or the JOIN rate limit may have held a message back.)
             self.driver.die()
             self._reallyDie()
         else:
